@@ -111,6 +111,8 @@ def oracle(ck, tier, deep):
         coeffs = rng.normal(size=N)
         im, r = synth_image((h, w), origin, coeffs, odd)
         wt = None if rng.random() < 0.4 else rng.random((h, w)) + 0.2
+        if wt is not None:        # any strictly positive weights: inverse variances, normalised maps … (overall scale is immaterial)
+            wt = wt * float(rng.choice([1.0, 1.0, 1e-6, 2.0 ** -20, 1e5]))
         ck.count(("S.recover", odd, order, method, usin, wt is None, type(rmax).__name__, type(o_arg).__name__), suite="S.recover")
         rep = dict(shape=[h, w], origin=o_arg if isinstance(o_arg, str) else list(o_arg), rmax=rmax, order=order, odd=odd, method=method,
                    use_sin=usin, weights=wt is not None, coeffs=coeffs.tolist())
@@ -154,6 +156,26 @@ def oracle(ck, tier, deep):
                 if err2 > tol2:
                     ck.violation(dict(sig, clause="exact-recovery-object-reuse"), dict(rep, second_shape=[h2, w2], coeffs2=coeffs2.tolist()),
                                  f"the same Distributions object, second image of shape {(h2, w2)} after {(h, w)}: coefficients off by {err2:.3g}")
+    # raw camera frames: an image stored as uint8 / uint16 / int32 is analysed as its float64 copy
+    for _ in range(20 if not deep else 200):
+        h, w = (int(v) for v in rng.integers(15, 40, size=2))
+        dt = [np.uint8, np.uint16, np.int32][int(rng.integers(0, 3))]
+        im = rng.integers(0, 250 if dt is np.uint8 else 60000, size=(h, w)).astype(dt)
+        origin = (int(rng.integers(2, h - 2)), int(rng.integers(2, w - 2)))
+        order = int(rng.choice([0, 2, 4]))
+        method = ["nearest", "linear"][int(rng.integers(0, 2))]
+        wts = None if rng.random() < 0.6 else rng.random((h, w)) + 0.2
+        ck.count(("S.dtype", str(np.dtype(dt)), order, method, wts is None), suite="S.recover")
+        try:
+            a = quiet(quiet(vmi.Distributions, origin=origin, order=order, method=method, weights=wts).image, im).cos()
+            b = quiet(quiet(vmi.Distributions, origin=origin, order=order, method=method, weights=wts).image, im.astype(np.float64)).cos()
+        except Exception as e:
+            ck.violation(dict(site="Distributions", clause="exception"), dict(shape=[h, w], dtype=str(np.dtype(dt))), f"{type(e).__name__}: {e}")
+            continue
+        ok = np.isfinite(a) & np.isfinite(b)
+        if a.shape != b.shape or np.abs(a[ok] - b[ok]).max(initial=0.0) > 1e-9 * max(1.0, np.abs(b[ok]).max(initial=0.0)):
+            ck.violation(dict(site="Distributions", clause="image-dtype"), dict(shape=[h, w], origin=list(origin), order=order, method=method, dtype=str(np.dtype(dt))),
+                         f"a {np.dtype(dt)} image gives distributions different from its float64 copy")
     # anisotropy parameter of a noiseless curve
     for _ in range(40 if not deep else 400):
         beta, A = float(rng.uniform(-1, 2)), float(rng.uniform(0.1, 50))
